@@ -665,7 +665,9 @@ func (auth *Authenticator) rehashPassword(user User, password string) error {
 		}
 
 		hashCost, costErr := bcrypt.Cost(currentUserImpl.PasswordHash_)
-		if costErr == nil && hashCost != auth.BcryptCost {
+		// On a CAS retry currentPrincipal was reloaded: the password verified by the caller is only rehashed if it is
+		// still the password of that revision (a concurrent password change must not be overwritten).
+		if costErr == nil && hashCost != auth.BcryptCost && bcrypt.CompareHashAndPassword(currentUserImpl.PasswordHash_, []byte(password)) == nil {
 			// the cost of the existing hash is different than the configured bcrypt cost.
 			// We'll re-hash the password to adopt the new cost:
 			err = currentUserImpl.SetPassword(password)
